@@ -26,7 +26,7 @@ Qed.
 
 Lemma build_disclosure_obj E j p salt j' d : is_obj j -> build_disclosure E j p salt = Ok (j', d) -> is_obj j'.
 Proof.
-  unfold build_disclosure. destruct (split_path p) as [[toks key]|]; [|discriminate]. intros Ho Hu.
+  unfold build_disclosure. destruct (parse_path p) as [[toks key]|]; [|discriminate]. intros Ho Hu.
   eapply (update_at_obj (disclose_here E key salt)); eauto. intros; eapply disclose_here_obj; eauto.
 Qed.
 
@@ -60,7 +60,7 @@ Lemma split_path_no_slash p : contains slash p = false -> split_path p = None.
 Proof. intros Hc. unfold split_path. rewrite split_no_sep by assumption. reflexivity. Qed.
 
 Lemma build_disclosure_no_slash E claims p salt : contains slash p = false -> build_disclosure E claims p salt = Err.
-Proof. intros Hc. unfold build_disclosure. rewrite split_path_no_slash by assumption. reflexivity. Qed.
+Proof. intros Hc. unfold build_disclosure, parse_path. rewrite split_path_no_slash by assumption. destruct (reserved_token p); reflexivity. Qed.
 
 (* an error in any position of the path list makes the whole fold fail *)
 Lemma issue_fold_err E : forall pre claims p post salts c ds s,
@@ -92,3 +92,11 @@ Proof. intros Ha Ho. unfold disclose_here. destruct j; try reflexivity; exfalso;
 Theorem issue_reserved_refused E claims paths max_decoys cnf header :
   has_reserved true claims = true -> issue E claims paths max_decoys cnf header = Fail.
 Proof. intros Hr. unfold issue. rewrite Hr. reflexivity. Qed.
+
+(* repair F20: paths that lead into digest bookkeeping *)
+Lemma build_disclosure_reserved_token E claims p salt : reserved_token p = true -> build_disclosure E claims p salt = Err.
+Proof. intros Hr. unfold build_disclosure, parse_path. rewrite Hr. reflexivity. Qed.
+
+Lemma disclose_here_placeholder E key salt xs i v :
+  parse_usize key = Some i -> nth_error xs i = Some v -> has_dots v = true -> disclose_here E key salt (JArr xs) = Err.
+Proof. intros Hp Hn Hd. unfold disclose_here. cbn. rewrite Hp, Hn, Hd. reflexivity. Qed.
